@@ -148,6 +148,8 @@ def optJ (toks : List String) : Option Nat :=
 def optDb (toks : List String) : Option Bool :=
   match kv? toks "db" with
   | some "1" => some true
+  | some "2" => some true     -- the query function panics with an error value
+  | some "3" => some true     -- … with a non-error value
   | some "0" => some false
   | some _ => none
   | none => some false
@@ -380,6 +382,36 @@ def concObs (toks : List String) : List String :=
   (toks.filter fun t => !(t.startsWith "inflight=" || t.startsWith "distinct=")).map
     fun t => if t = "q=ok" then "q=1" else t
 
+/-- `cmix p0+p1 n=<n> chain=<0|1> gmp=<0|1> [j=] [db=1]`: keys, readers, chained second read, draw, database fault. -/
+def parseCmix : List String → Option (List CKey × Nat × Bool × Nat × Bool)
+  | "cmix" :: ks :: rest => do
+    let keys ← (ks.splitOn "+").mapM parseKey
+    if keys = [] ∨ keys.any (fun k => match k with | .p _ => false | _ => true) then none
+    let n ← (kv? rest "n").bind String.toNat?
+    let chain ← match kv? rest "chain" with | some "1" => some true | some "0" => some false | none => some false | _ => none
+    if n = 0 ∨ n > 16 then none
+    pure (keys, n, chain, ← optJ rest, ← optDb rest)
+  | _ => none
+
+/-- `reads=<reader>/<key>/<res>,…` (`-` = a read that did not take place: its reader panicked before). -/
+def parseReads (t : String) : Option (List (Nat × CKey × String)) :=
+  ((t.splitOn ",").filter (· ≠ "-")).mapM fun e => match e.splitOn "/" with
+    | [r, k, res] => do pure (← r.toNat?, ← parseKey k, res)
+    | _ => none
+
+/-- `loads=<key>/<count|ok>/<res>,…|-`. -/
+def parseLoads (t : String) : Option (List (CKey × String × String)) :=
+  if t = "-" then some [] else
+  (t.splitOn ",").mapM fun e => match e.splitOn "/" with
+    | [k, n, res] => do pure (← parseKey k, n, res)
+    | _ => none
+
+def showSlot (s : St) (k : Slot) : Option String :=
+  (s.cache k).map fun e => s!"{k.1}/{showKey k.2}={showVal e.val}@" ++ (if e.ttl = 0 then "inf" else toString e.ttl)
+
+def pkOf : CKey → Nat
+  | .p n => n | .x n => n
+
 def runSection (r : Report) (sec : Section) : Report := Id.run do
   let nodes := kvNat sec.cfg "nodes" 1
   let typ := kvStr sec.cfg "type" "node"
@@ -428,6 +460,93 @@ def runSection (r : Report) (sec : Section) : Report := Id.run do
         for v in Spec.instClauses nodes kinds ks bars do r := r.violation sec.idx l.idx s!"{v} op=[insts] cfg=[{joinSp sec.cfg}] impl=[{impl}]"
       if model ≠ impl then r := r.mismatch sec.idx l.idx model impl
       continue
+    if l.op.head? = some "cmix" then
+      -- concurrent readers of several keys (round 5): the model is one fault-free Take per distinct key, in the
+      -- order the keys are named; the leader of every key's flight is any of the instances (its options decide
+      -- the TTL): the candidate whose entry the servers show is taken
+      r := { r with ops := r.ops + 1 }
+      r := r.addCover "cmix"
+      let impl := joinSp l.obs
+      match parseCmix l.op, parseVia l.op with
+      | some (ks, n, chain, j, dbf), some via =>
+        if via = [] ∨ via.any (· ≥ cfgs.length) then
+          r := r.mismatch sec.idx l.idx "bad-op" (joinSp l.op)
+          continue
+        let multi := Spec.classesOf kinds via > 1
+        let implDump := (l.obs.dropWhile (· ≠ "|")).drop 1
+        r := r.addCover s!"cmix-keys-{ks.eraseDups.length}"
+        if chain then r := r.addCover "cmix-chained-second-read"
+        if l.op.contains "gmp=1" then r := r.addCover "cmix-one-P" else r := r.addCover "cmix-many-Ps"
+        if dbf then r := r.addCover "cmix-database-fault"
+        if multi then r := r.addCover "cmix-across-barrier-classes"
+        if via.eraseDups.length ≥ 2 then r := r.addCover "cmix-across-instances"
+        let keyAt (i : Nat) : CKey := ks.getD (i % ks.length) (.p 0)
+        -- the keys that are read at all (fewer readers than keys: the rest is never asked for)
+        let readKeys : List CKey := (List.range n).flatMap fun i => [keyAt i] ++ (if chain then [keyAt (i + 1)] else [])
+        if readKeys.eraseDups.length < ks.eraseDups.length then r := r.addCover "cmix-fewer-readers-than-keys"
+        let mut ms := s
+        let mut per : List (CKey × Cfg × Res × Nat) := []
+        for k in ks.eraseDups.filter (readKeys.contains ·) do
+          let cands := via.eraseDups.map fun i =>
+            let c := cfgs.getD i c0
+            (c, step c ms (.take (pkOf k) j [] dbf))
+          let fits (m : Cfg × St × Out) : Bool := match showSlot m.2.1 (m.1.slot k) with
+            | some t => implDump.contains t
+            | none => true
+          let pick := (cands.find? fits).getD (cands.headD (c0, ms, { res := .ok }))
+          per := per ++ [(k, pick.1, pick.2.2.res, pick.2.2.q)]
+          r := r.addCover (if pick.2.2.q = 0 then "cmix-key-cached" else
+            match pick.2.2.res with | .notfound => "cmix-key-absent-row" | .dberr => "cmix-key-dberr" | _ => "cmix-key-loaded")
+          ms := pick.2.1
+        let resOf (k : CKey) : String := match per.find? (·.1 = k) with
+          | some e => showRes e.2.2.1
+          | none => "?"
+        let expReads : List String := (List.range n).flatMap fun i =>
+          [s!"{i}/{showKey (keyAt i)}/{resOf (keyAt i)}"]
+            ++ (if chain then [s!"{i}/{showKey (keyAt (i + 1))}/{resOf (keyAt (i + 1))}"] else [])
+        let qsum := (per.map (·.2.2.2)).foldl (· + ·) 0
+        let expLoads : List String := per.filterMap fun e =>
+          if e.2.2.2 = 0 then none
+          else some s!"{showKey e.1}/{if dbf || multi then "ok" else toString e.2.2.2}/{showRes e.2.2.1}"
+        let model := joinSp (["ok", (if (dbf || multi) && qsum ≥ 1 then "q=ok" else s!"q={qsum}"), "cmds=-",
+            s!"inflight={if qsum ≥ 1 then 1 else 0}", "reads=" ++ ",".intercalate expReads,
+            "loads=" ++ (if expLoads = [] then "-" else ",".intercalate expLoads), "|"] ++ showDump ms)
+        -- the monitor: the property's clauses on the implementation's own observation
+        match (kv? l.obs "reads").bind parseReads, (kv? l.obs "loads").bind parseLoads, implDump.mapM parseObsEntry with
+        | some reads, some loads, some cur =>
+          if l.obs.head? ≠ some "ok" then
+            r := r.violation sec.idx l.idx s!"single-loader: concurrent readers did not all return: {l.obs.headD "?"} op=[{joinSp l.op}] impl=[{impl}]"
+          for v in Spec.cmixClauses c0 mon.prev (kvNat l.obs "inflight" 99) reads (loads.map fun e => (e.1, e.2.2)) do
+            r := r.violation sec.idx l.idx s!"{v} op=[{joinSp l.op}] impl=[{impl}]"
+          -- the sequential clauses (coherent, served, dberr, ttl, dispatch, persistent key) key by key
+          let mut done : List Slot := []
+          for e in per do
+            let k := e.1
+            done := done ++ [e.2.1.slot k]
+            let last := done.length = per.length
+            let dumpK := if last then cur else Spec.mixDump mon.prev cur done
+            let resK : Res := match reads.find? (fun x => x.2.1 = k && !x.2.2.startsWith "PANIC") with
+              | some x => (parseRes x.2.2).getD e.2.2.1
+              | none => e.2.2.1
+            let qK : Nat := match loads.find? (·.1 = k) with
+              | some x => (x.2.1.toNat?).getD 1
+              | none => 0
+            let m := Spec.monStep e.2.1 report mon (.take (pkOf k) j [] dbf) 0 ⟨resK, qK, [], dumpK⟩
+            for v in m.2.1 do r := r.violation sec.idx l.idx s!"{v} op=[{joinSp l.op}] key={showKey k} impl=[{impl}]"
+            for t in m.2.2 do r := r.addCover t
+            mon := m.1
+        | _, _, _ => r := r.violation sec.idx l.idx s!"unreadable observation [{impl}] op=[{joinSp l.op}]"
+        if model ≠ impl then r := r.mismatch sec.idx l.idx model impl
+        s := compact ms
+      | _, _ => r := r.mismatch sec.idx l.idx "bad-op" (joinSp l.op)
+      continue
+    if (l.obs.headD "").startsWith "PANIC" && l.op.head? ≠ some "ctake" then
+      -- the real code panicked under this operation although no user-supplied function of THIS operation did
+      -- (a query function that panics is caught by the harness and printed `panicked`): e.g. a key left unreadable
+      -- by an earlier panicking query (the flight's call never removed), a foreign object handed out by a barrier
+      r := { r with ops := r.ops + 1 }
+      r := r.violation sec.idx l.idx s!"released: the operation panicked inside the cache layer (no user-supplied function panicked in it; after a failed or panicking load the key must stay readable): {joinSp l.obs} op=[{joinSp l.op}]"
+      continue
     match parseOp l.op, parseVia l.op with
     | none, _ | _, none => r := r.mismatch sec.idx l.idx "bad-op" (joinSp l.op)
     | some (op, n), some via =>
@@ -438,9 +557,18 @@ def runSection (r : Report) (sec : Section) : Report := Id.run do
       r := { r with ops := r.ops + 1 }
       r := r.addCover (opKind op)
       if via.any (· > 0) then r := r.addCover "op-through-a-later-instance"
+      if l.op.contains "nc=1" then r := r.addCover s!"context-free-wrapper-{opKind op}"
       let dbf := match op with | .take _ _ _ d => d | _ => false
       let multi := Spec.classesOf kinds via > 1
       let impl := joinSp l.obs
+      -- `db=2` / `db=3`: the query function panics; for the model and the monitor that is a failing database call
+      -- (nothing cached, no result), printed `panicked` instead of `dberr`
+      let pan := !conc && (l.op.contains "db=2" || l.op.contains "db=3")
+      if pan then r := r.addCover (if l.op.contains "db=2" then "query-panics-with-error-value" else "query-panics-with-non-error-value")
+      let panTxt (t : String) : String := if pan && t.startsWith "dberr " then "panicked " ++ (t.drop 6).toString else t
+      let unPan (toks : List String) : List String := match toks with
+        | "panicked" :: rest => if pan then "dberr" :: rest else toks
+        | _ => toks
       -- the model of the operation under the options of instance `i`
       let modelOf (i : Nat) : Cfg × (St × Out) × String :=
         let c := cfgs.getD i c0
@@ -451,7 +579,7 @@ def runSection (r : Report) (sec : Section) : Report := Id.run do
             -- classes every class loads at most once (1 ≤ q ≤ #classes): both printed as `ok`
             joinSp ([showRes res.2.res, (if (dbf || multi) && res.2.q = 1 then "q=ok" else s!"q={res.2.q}"), "cmds=-",
                      s!"inflight={res.2.q}", "distinct=1", "|"] ++ showDump res.1)
-          else joinSp (showOut (opKind op) res.1 res.2)
+          else panTxt (joinSp (showOut (opKind op) res.1 res.2))
         (c, res, txt)
       -- concurrent readers over instances with different options: the leader's options decide what is written
       let cands := via.map modelOf
@@ -466,6 +594,8 @@ def runSection (r : Report) (sec : Section) : Report := Id.run do
         if via.eraseDups.length ≥ 2 ∧ !multi ∧ res.2.q = 1 then r := r.addCover "concurrent-load-across-instances-one-barrier"
         if kvNat l.obs "inflight" 99 > 1 then
           r := r.violation sec.idx l.idx s!"single-loader: more than one database query in flight for one key among instances that promise one barrier op=[{joinSp l.op}] cfg=[{joinSp sec.cfg}] impl=[{impl}]"
+        if (l.obs.headD "").startsWith "PANIC" then
+          r := r.violation sec.idx l.idx s!"single-loader: a concurrent reader of one key panicked instead of receiving the result of its flight: {l.obs.headD ""} op=[{joinSp l.op}] impl=[{impl}]"
         if kvNat l.obs "distinct" 99 ≠ 1 then
           r := r.violation sec.idx l.idx s!"single-loader: concurrent readers received different results op=[{joinSp l.op}] impl=[{impl}]"
       for t in coverOf c s res.1 op res.2 do r := r.addCover t
@@ -486,7 +616,7 @@ def runSection (r : Report) (sec : Section) : Report := Id.run do
       | _ => pure ()
       if l.op.contains "w=1" && res.2.res = .notfound && res.2.q ≥ 1 then r := r.addCover "notfound-error-wrapped"
       if model ≠ impl then r := r.mismatch sec.idx l.idx model impl
-      match parseObs (if conc then concObs l.obs else l.obs) with
+      match parseObs (if conc then concObs l.obs else unPan l.obs) with
       | none => r := r.violation sec.idx l.idx s!"unreadable observation [{impl}] op=[{joinSp l.op}]"
       | some o =>
         let m := Spec.monStep c report mon op n o
